@@ -29,8 +29,9 @@ PrioOf(prio, k)  == prio[CHOOSE i \in DOMAIN prio : prio[i][1] = k][2]
 
 Domain(g, prio)    == PrioKeys(prio) = DOMAIN g /\ Len(prio) = Cardinality(DOMAIN g)
 Distinct(prio)     == Cardinality(PrioVals(prio)) = Len(prio)
-DepsFirst(g, prio) == \A k \in DOMAIN g \cap PrioKeys(prio) :
-                        \A d \in Deps(g, k) \cap PrioKeys(prio) : PrioOf(prio, k) > PrioOf(prio, d)
+PrioFn(prio)       == [k \in PrioKeys(prio) |-> PrioOf(prio, k)]
+DepsFirst(g, prio) == LET P == PrioFn(prio) IN
+                      \A k \in DOMAIN g \cap DOMAIN P : \A d \in Deps(g, k) \cap DOMAIN P : P[k] > P[d]
 
 \* the contract on a successful return
 OrderOK(g, prio) == Domain(g, prio) /\ Distinct(prio) /\ DepsFirst(g, prio)
